@@ -30,10 +30,16 @@ type c10Table struct {
 	rows    [][]driver.Value
 }
 
+type c10Exec struct {
+	q    string
+	args []driver.Value
+}
+
 type c10Driver struct {
 	mu         sync.Mutex
 	tables     map[string]*c10Table
 	statements []string
+	execs      []c10Exec // statements with their arguments: writes through Exec, reads through Query
 }
 
 var c10Drv = &c10Driver{tables: map[string]*c10Table{}}
@@ -45,7 +51,12 @@ type c10Conn struct{ d *c10Driver }
 
 func (c *c10Conn) Prepare(q string) (driver.Stmt, error) { return &c10Stmt{c.d, q}, nil }
 func (c *c10Conn) Close() error                          { return nil }
-func (c *c10Conn) Begin() (driver.Tx, error)             { return nil, fmt.Errorf("no transactions") }
+func (c *c10Conn) Begin() (driver.Tx, error)             { return c10Tx{}, nil }
+
+type c10Tx struct{}
+
+func (c10Tx) Commit() error   { return nil }
+func (c10Tx) Rollback() error { return nil }
 
 type c10Stmt struct {
 	d *c10Driver
@@ -55,7 +66,11 @@ type c10Stmt struct {
 func (s *c10Stmt) Close() error  { return nil }
 func (s *c10Stmt) NumInput() int { return -1 }
 func (s *c10Stmt) Exec(args []driver.Value) (driver.Result, error) {
-	return nil, fmt.Errorf("exec not supported")
+	s.d.mu.Lock()
+	defer s.d.mu.Unlock()
+	s.d.statements = append(s.d.statements, s.q)
+	s.d.execs = append(s.d.execs, c10Exec{s.q, append([]driver.Value{}, args...)})
+	return driver.RowsAffected(1), nil
 }
 
 // SQL comparison of a stored value with a parameter: NULL on either side is never equal (three-valued logic collapses
@@ -199,7 +214,38 @@ func (s *c10Stmt) Query(args []driver.Value) (driver.Rows, error) {
 	s.d.mu.Lock()
 	defer s.d.mu.Unlock()
 	s.d.statements = append(s.d.statements, s.q)
+	s.d.execs = append(s.d.execs, c10Exec{s.q, append([]driver.Value{}, args...)})
 	q := s.q
+	if strings.HasPrefix(q, "SELECT COUNT(*) FROM ") {
+		// COUNT: the number of rows the WHERE clause selects
+		rest := strings.TrimPrefix(q, "SELECT COUNT(*) FROM ")
+		tableName, where := rest, ""
+		if j := strings.Index(rest, " WHERE "); j >= 0 {
+			tableName, where = rest[:j], rest[j+len(" WHERE "):]
+		}
+		t := s.d.tables[strings.TrimSpace(tableName)]
+		if t == nil {
+			return nil, fmt.Errorf("fake driver: unknown table %q", tableName)
+		}
+		pred := c10Pred(func(map[string]driver.Value) bool { return true })
+		if where != "" {
+			var err error
+			if pred, err = c10ParseWhere(where, args); err != nil {
+				return nil, err
+			}
+		}
+		n := int64(0)
+		for _, r := range t.rows {
+			m := map[string]driver.Value{}
+			for k, c := range t.columns {
+				m[c] = r[k]
+			}
+			if pred(m) {
+				n++
+			}
+		}
+		return &c10Rows{cols: []string{"COUNT(*)"}, rows: [][]driver.Value{{n}}}, nil
+	}
 	if !strings.HasPrefix(q, "SELECT ") {
 		return nil, fmt.Errorf("fake driver: unsupported statement %q", q)
 	}
